@@ -134,7 +134,8 @@ def to_string(rng, cst, fancy):
         if op == "":
             # whitespace is what makes a juxtaposition at string level (after ")" it is optional
             # before a NUMBER/NAME); a group on the right needs the whitespace (else: F16)
-            need = not (l[0] == "par" and r[0] != "par") or rng.random() < 0.5
+            glue_ok = (ls[-1] in ")⁰¹²³⁴⁵⁶⁷⁸⁹") and (rs[0].isalnum() or rs[0] == "_" or rs[0] == ".")
+            need = not glue_ok or rng.random() < 0.5
             gap = " " * rng.randint(1, 3) if fancy else " "
             if fancy and rng.random() < 0.1:
                 gap = "\t"
@@ -386,6 +387,37 @@ def string_level(ck, rng, thorough):
                 n_eval += check_string(ck, fails, nit, ltoks + gtoks, src, leaves, ["parse_expression"],
                                        f16=True, stream="group-juxt-adjacent")
             ck.case(key=("str-f16", ltoks + gtoks))
+    # (f) unbalanced parentheses / dangling operators never yield a value, at string level
+    pool = [e for e in small if T.leaves(e) >= 2][:: max(1, len(small) // 400)]
+    for _ in range(300):
+        pool.append(value_tree(rng, rng.randint(2, 8), OPS))
+    n_bad = 0
+    for e in pool:
+        if not T.legal(e):
+            continue
+        s0, _, _ = to_string(rng, T.parenthesize(rng.choice(["min", "full"]), e), fancy=False)
+        variants = []
+        for op in ("+", "-", "*", "/", "**", "//", "^", "("):
+            variants.append(("dangling", s0 + " " + op))
+        variants.append(("unbalanced", "(" + s0))
+        variants.append(("unbalanced", s0 + ")"))
+        variants.append(("unbalanced", "((" + s0 + ")"))
+        idx = [i for i, c in enumerate(s0) if c in "()"]
+        if idx:
+            i = rng.choice(idx)
+            variants.append(("unbalanced", s0[:i] + s0[i + 1:]))
+        for kind, bad_s in rng.sample(variants, 4):
+            for nit in (float, Fraction):
+                got = outcome(lambda: registry(nit).parse_expression(bad_s))
+                n_eval += 1
+                n_bad += 1
+                ck.count(f"malformed-strings:{kind}:" + ("value" if got[0] == "ok" else "error"))
+                if got[0] == "ok":
+                    fails.append((f"{kind}-value-string:" + bad_s,
+                                  f"parse_expression({bad_s!r}) [{nit.__name__} registry] yields {describe(got)} "
+                                  f"although the {'parentheses are unbalanced' if kind == 'unbalanced' else 'operator is dangling'}",
+                                  {"string": bad_s, "non_int_type": nit.__name__, "pint": describe(got)}))
+            ck.case(key=("str-bad", bad_s))
     # witness of F40 (unary minus is x * -1): only the Decimal registry shows it
     w = ("bin", "**", ("par", ("neg", ("par", ("bin", "", ("num", "0"), ("name", "m"))))), ("neg", ("num", "1")))
     ws, wsrc, wleaves = to_string(rng, w, fancy=False)
